@@ -71,8 +71,9 @@ class RandomTable(Table):
         nr = self.numrows
         seed = self.seed
 
-        # N.B., we want this to be stable, i.e., same data each time
-        pyrandom.seed(seed)
+        # N.B., we want this to be stable, i.e., same data each time;
+        # a generator of our own keeps iterators independent of each other
+        rng = pyrandom.Random(seed)
 
         # construct fields
         flds = ["f%s" % n for n in range(nf)]
@@ -83,7 +84,7 @@ class RandomTable(Table):
             # artificial delay
             if self.wait:
                 time.sleep(self.wait)
-            yield tuple(pyrandom.random() for n in range(nf))
+            yield tuple(rng.random() for n in range(nf))
 
     def reseed(self):
         self.seed = randomseed()
